@@ -235,7 +235,7 @@ def valueLoop (r : BlockReader) (seg : Segment) : Nat → Int → Int → Bytes 
   | fuel + 1, line, i, ret => do
     let s ← segAt r.segments line
     let i := if i < 0 then s.start else i
-    let ret := s.concatPadding ret
+    let ret := if i == s.start then s.concatPadding ret else ret   -- since 96b5bf4: only in front of the line's first byte
     let hi := if seg.stop < s.stop then seg.stop else s.stop
     let part ← copyRange r.source i hi
     let ret := ret ++ part
